@@ -139,6 +139,9 @@ def py_in(I, x, coll):
         return S.contains(coll, x)
     from .absx import AbsColl
     if isinstance(coll, AbsColl):
+        owner = coll.info.get("owner")
+        if isinstance(owner, MDict) and coll.info.get("view") == "keys":
+            return mdict_contains(I, owner, x)
         # membership in a collection of unknown content: an unconstrained boolean
         return I.ctx.fresh(S.BOOL, "member")
     if isinstance(coll, MDict):
